@@ -129,6 +129,7 @@ func runCHSite(r *Run, s *chSite) {
 	tag := pickTag(fn, T, cv)
 	var inline func(*ssa.Function, int) bool
 	var h *ssa.Function
+	var coTags []ssa.Value
 	if tag == nil {
 		// the dispatch may have been extracted into a helper: follow exactly the call chain to it
 		grp := funcGroup(fn)
@@ -150,6 +151,17 @@ func runCHSite(r *Run, s *chSite) {
 			for _, g := range grp[1:] {
 				if g != h && calls(fn, g) && calls(g, h) {
 					chain[g] = true
+				}
+			}
+			// other instantiations of the same generic helper dispatch on their own copy of the value
+			if h.Origin() != nil {
+				for _, g := range grp[1:] {
+					if g != h && g.Origin() == h.Origin() {
+						if t := pickTag(g, T, cv); t != nil {
+							chain[g] = true
+							coTags = append(coTags, t)
+						}
+					}
 				}
 			}
 			inline = func(callee *ssa.Function, depth int) bool { return chain[callee] && depth <= 3 }
@@ -226,7 +238,7 @@ func runCHSite(r *Run, s *chSite) {
 			return
 		}
 	}
-	cases := casesOfInline(fn, tag, consts, extra, nil, inline)
+	cases := casesOfInlineCo(fn, append([]ssa.Value{tag}, coTags...), consts, extra, nil, inline)
 	r.count("ch_cases", len(cases))
 	// second derivation, used only for cases the first one does not settle: the same paths with
 	// result-returning helpers followed (both derivations describe the same code; a case holds when
@@ -398,11 +410,25 @@ func describeBuilt(v ssa.Value) string {
 		return "func:" + shortFuncName(x)
 	case *ssa.Alloc:
 		return "type:" + shortType(x.Type())
+	case *ssa.UnOp:
+		// a composite literal's value that reached the return through a helper's parameter (the
+		// interface conversion happened in the helper)
+		if al, ok := x.X.(*ssa.Alloc); ok && allFieldStores(al) {
+			return "type:" + shortType(x.Type())
+		}
 	}
 	if isNilConst(v) {
 		return "nil"
 	}
 	return describe(v, 0)
+}
+
+// allFieldStores: the cell is only written field by field (a composite literal under construction).
+func allFieldStores(al *ssa.Alloc) bool {
+	if _, isIface := derefType(al.Type()).Underlying().(*types.Interface); isIface {
+		return false
+	}
+	return len(storesTo(al)) == 0
 }
 
 // ---- C05 / C01: token -> operator sites -----------------------------------
